@@ -22,6 +22,12 @@ Sub-checks
             character only); files with and without a terminator behind the last line, written and read back as
             bytes.  clean_file - the entry point at which the cleaner itself cuts the text into lines - is drawn
             twice as often as before.
+            One fixed order whatever the call looks like: every (non-blank) line of the case is handed to fresh
+            cleaners of the same configuration in 4-7 "call shapes" - single string / one-line list, default
+            arguments given / left out / None, no_obfuscate also naming obfuscators that are switched off - and the
+            cleaned text has to be the same (_call_shapes).
+            The keyword list is written "as users write it" in 1 of 3 cases (hashseed too): >= 2 distinct keywords,
+            1-2 entries repeated, a repetition possibly padded with blanks (_as_written).
   overlap   (hypothesis, in-process)  2-3 cleanings - each with its own content, allow-list, no_obfuscate and
             no_redact - go through ONE Cleaner object (what a collection does: one cleaner per run, specs
             written from a thread pool when obfuscation is off).  Every cleaning runs in its own real thread;
@@ -78,6 +84,11 @@ RULE = ("cases built so that obfuscators compete for the same text: keywords tha
         "big: enumerated sizes around powers of two and decimal round numbers (T-1, T, T+1 lines), the same "
         "content object (list / provider) cleaned 2-3 times by fresh cleaners with a pattern that drops every third "
         "/ the first / the last / every non-blank line; order: the same list object / provider cleaned twice. "
+        "keyword lists as users write them (1 of 3 compete cases: 2-4 distinct keywords, 1-2 entries repeated anywhere "
+        "in the list, a repetition possibly padded with blanks - the cleaner strips entries). "
+        "order: every non-blank line (first 3) is cleaned by fresh cleaners in 4-7 call shapes (single string / "
+        "one-line list x default arguments explicit / left out / None x no_obfuscate also naming switched-off "
+        "obfuscators) and the texts are compared. "
         "hashseed: every case is run under |K| hash seeds in child interpreters. "
         "Non-trivial (hashseed): applying the enabled obfuscators one at a time in documented order and in "
         "reverse order (public API, no_obfuscate) gives different results, i.e. application order matters for "
@@ -107,6 +118,13 @@ ASSUMPTIONS = [
     "big: the generated lines hold nothing any obfuscator rewrites, so an output line has to be equal to the input "
     "line whose tag it carries; which lines a plain pattern drops is C08's business - only 'every non-blank line "
     "carries the pattern -> the spec is dropped' is used, as in order",
+    "order / call shapes: a line handed to clean_content as a single string and as a one-line list, with default "
+    "arguments given or left out, and with no_obfuscate additionally naming obfuscators the configuration does not "
+    "have, asks for the same cleaning (same text, same parsers): 'one fixed order' and 'function of content and "
+    "configuration' then demand the same text (None / '' for a single value = [] for a list).  Whole multi-line "
+    "contents are not compared across entry points",
+    "the keywords list may name a keyword more than once and entries may carry blanks around them (the loaders hand "
+    "the list over as it is written; the Keyword obfuscator strips every entry)",
     "overlap: a list subclass as content (the cleaner tests isinstance(lines, list)) whose item reads block until "
     "the scheduler's baton arrives; instance-level parse_line wrappers on the harness's own cleaner object",
 ]
@@ -380,6 +398,7 @@ def check_order(case):
         if third != out:
             raise Violation("a fresh cleaner's output depends on what another cleaner object did earlier in the "
                             "process", first=out, after_other_cleaner=third, **details)
+    labels.update(_one_order_for_every_call_shape(case, lines, details))
     if entry == "list" and case.get("allowlist") is not None:
         # callers hand every cleaning of a spec the *same* allow-list object (it comes out of the filter
         # registry's cache): the result must not depend on how often that object was used before
@@ -456,6 +475,83 @@ def check_order(case):
         labels.add("blank-line-kept")
     nt = (len(out) >= 2 and dropped > 0) or (not out and any(l == "" for l in lines))
     return {"nontrivial": nt, "labels": sorted(labels), "key": _key(case)}
+
+
+SHAPE_LINES = 3
+
+
+def _call_shapes(case):
+    """-> [(name, content is handed over as a single string, keyword arguments)]: ways of asking one cleaner
+    configuration for the SAME cleaning of one line.  They differ only in how the call is written down:
+      * the line as a single string (how the client cleans the canonical facts, value by value) or as a one-line list
+        (a spec);
+      * arguments that have their default value given explicitly (what the providers do) or left out (what
+        InsightsConnection._clean_facts and clean_file's callers do), no_obfuscate=None / [];
+      * no_obfuscate additionally naming obfuscators this configuration does not have (a spec declares its
+        exemptions - e.g. no_obfuscate=['hostname', 'ip'] - whatever the user switched on).
+    Every shape selects the same set of parsers for the same text."""
+    no_obf = list(case.get("no_obfuscate") or [])
+    allow = case.get("allowlist")
+    explicit = {"no_obfuscate": no_obf, "no_redact": bool(case.get("no_redact")), "allowlist": allow, "width": False}
+    terse = {}
+    if no_obf:
+        terse["no_obfuscate"] = no_obf
+    if case.get("no_redact"):
+        terse["no_redact"] = True
+    if allow is not None:
+        terse["allowlist"] = allow
+    shapes = [("list, every argument given", False, explicit), ("single string, every argument given", True, explicit),
+              ("single string, default arguments left out", True, terse),
+              ("list, default arguments left out", False, terse)]
+    if not no_obf:
+        shapes.append(("single string, no_obfuscate=None", True, dict(explicit, no_obfuscate=None)))
+    o = case["obf"]
+    have = set(["password"])
+    if case.get("keywords"):
+        have.add("keyword")
+    if o["obfuscate"]:
+        have.add("ip")
+        have.update(n for n, sw in (("ipv6", "ipv6"), ("hostname", "hostname"), ("mac", "mac")) if o[sw])
+    absent = [n for n in c08.OBF_NAMES if n not in have and n not in no_obf]
+    if absent:
+        more = dict(explicit, no_obfuscate=no_obf + absent)
+        shapes += [("single string, no_obfuscate also names obfuscators that are switched off", True, more),
+                   ("list, no_obfuscate also names obfuscators that are switched off", False, more)]
+    return shapes
+
+
+def _one_order_for_every_call_shape(case, lines, details):
+    """'The obfuscators are applied in one fixed order': whichever way one line is handed to a fresh cleaner of the
+    same configuration (see _call_shapes), the text that comes back is the same.  Checked line by line (first
+    SHAPE_LINES non-blank lines; a fresh cleaner per call, so no substitution table is shared) - whole contents
+    are NOT compared across entry points (a list is walked bottom-up, single values come one by one: the numbering
+    of hosts / addresses may differ by design)."""
+    labels = set()
+    shapes = _call_shapes(case)
+    for l in [x for x in lines if x != ""][:SHAPE_LINES]:
+        seen = []
+        for name, single, kw in shapes:
+            kw = dict(kw)
+            if kw.get("allowlist") is not None:
+                kw["allowlist"] = dict(kw["allowlist"])
+            if kw.get("no_obfuscate") is not None:
+                kw["no_obfuscate"] = list(kw["no_obfuscate"])
+            got = c08.build_cleaner(case).clean_content(l if single else [l], **kw)
+            if single:
+                # a single value that is redacted / filtered out comes back as None, a list without a non-blank
+                # line as []
+                got = [] if got is None or got == "" else [got]
+            seen.append((name, got))
+        ref_name, ref = seen[0]
+        for name, got in seen[1:]:
+            if got != ref:
+                raise Violation("one line, one configuration, a fresh cleaner each time - yet the cleaned text depends "
+                                "on how the call is written down (%s: %r; %s: %r): the obfuscators are not applied "
+                                "in one fixed order / cleaning is not a function of content and configuration"
+                                % (ref_name, ref, name, got), line=l, keywords=case.get("keywords"), fqdn=case["fqdn"],
+                                obf=case["obf"], no_obfuscate=case.get("no_obfuscate"), **details)
+        labels.add("call-shapes=%d" % len(shapes))
+    return labels
 
 
 def _allow_used_up_at(case, lines):
@@ -952,13 +1048,34 @@ def _allowlist(draw, rendered):
 
 
 @st.composite
+def _as_written(draw, kws):
+    """the `keywords` list of the redaction configuration as users write it - a list that grew over the years:
+    an entry listed twice (1-2 repetitions, anywhere in the list), a repetition that differs from the first
+    mention only by blanks around it (the cleaner strips every entry: ' web ' and 'web' are one keyword).  Which
+    number a keyword gets is then decided by the list - position and multiplicity - and by nothing else, so the
+    output must be the same in every process; the distinct keywords (what the content is built from) stay `kws`."""
+    out = list(kws)
+    for _ in range(draw(st.sampled_from([1, 1, 2]))):
+        k = draw(st.sampled_from(kws))
+        k = draw(st.sampled_from([k, k, k, k + " ", " " + k, "\t" + k + " "]))
+        out.insert(draw(st.integers(0, len(out))), k)
+    return out
+
+
+@st.composite
 def _compete_case(draw, tier, for_order=False):
     w = draw(tg.world(max_keywords=0))
     cands = _keyword_candidates(w)
-    chosen = draw(st.lists(st.sampled_from(cands), min_size=0 if draw(tg.rarely(5)) else 1, max_size=3,
-                           unique_by=lambda x: x[1]))
+    # 1 of 3: the keyword list "as a user writes it" (see _as_written) - then with at least two distinct keywords,
+    # the only situation in which the numbering of the keywords has anything to decide
+    written = draw(tg.rarely(3))
+    chosen = draw(st.lists(st.sampled_from(cands), min_size=2 if written else (0 if draw(tg.rarely(5)) else 1),
+                           max_size=4 if written else 3, unique_by=lambda x: x[1]))
     kws = [k for _, k in chosen]
     compete = sorted(set(why for why, _ in chosen))
+    conf_kws = draw(_as_written(kws)) if written else list(kws)
+    if conf_kws != kws:
+        compete.append("keyword-list-with-repeated-entries")
     # clean_file is the one entry point at which the code under test itself cuts a text into lines: the
     # in-process sub-check draws it twice as often
     entry = draw(st.sampled_from(["list", "list", "list", "write", "str", "file"] + (["file"] if for_order else [])))
@@ -1012,12 +1129,12 @@ def _compete_case(draw, tier, for_order=False):
             # nothing is "left by cleaning" and the content is stored as it is - by design, not asserted);
             # exempting every *active* one (no keyword configured) still goes through the cleaner
             no_obf = [n for n in c08.OBF_NAMES if n != "keyword"]
-            kws = []
+            kws = conf_kws = []
         if entry in ("list", "write") and draw(st.booleans()):
             lines = [{"tag": None, "tagpos": "start", "parts": []} for _ in range(draw(st.integers(1, 4)))]
     elif no_red and set(no_obf) == set(c08.OBF_NAMES):
         no_red = False
-    return {"fqdn": w["fqdn"], "obf": obf, "keywords": kws, "patterns": patterns, "no_obfuscate": no_obf,
+    return {"fqdn": w["fqdn"], "obf": obf, "keywords": conf_kws, "patterns": patterns, "no_obfuscate": no_obf,
             "no_redact": no_red, "allowlist": allow, "entry": entry, "width": False,
             # a file whose last line has no terminator (only drawn for the in-process sub-check's file entry)
             "final_newline": not (for_order and entry == "file" and draw(tg.rarely(4))),
